@@ -51,11 +51,32 @@ EXECS = ['X10', 'X21', 'T21', 'T30']
 ALPHABET = ADDS + OPTS + EXECS + ['L']
 
 
+def admissible(ops):
+    """Precondition of the histories: one ReuseableDataContainer64 is not added twice to the *same* clipper between two
+    Clears.  (Two LocalMinima then share their Vertex objects and the sweep pairs edges by vertex address: `R0 R0 X22`
+    on a fresh Clipper64 allocates without bound / crashes.  That is a robustness defect of the fresh object as well --
+    reported to C10 -- not a history dependence, and it would only mask C12 failures here.)"""
+    cur, seen = 0, {}
+    for o in ops:
+        if o[0] == '@':
+            cur = int(o[1:])
+        elif o[0] == 'R':
+            s_ = seen.setdefault(cur, set())
+            if o in s_:
+                return False
+            s_.add(o)
+        elif o == 'L':
+            seen[cur] = set()
+    return True
+
+
 def enum_histories(maxlen):
     """all sequences over ALPHABET of length <= maxlen whose last op is an Execute (every Execute inside a history is
     compared, so histories ending in another op add nothing)"""
     for n in range(1, maxlen + 1):
         for pre in itertools.product(ALPHABET, repeat=n - 1):
+            if not admissible(pre):
+                continue
             for e in EXECS:
                 yield pre + (e,)
 
@@ -77,10 +98,25 @@ def random_history(rng, maxlen=30, multi=False):
         else:
             ops.append('@%d' % rng.below(3))
     ops.append(('X' if rng.below(2) else 'T') + str(1 + rng.below(4)) + str(rng.below(4)))
-    return ops
+    # enforce the precondition (see admissible): drop a repeated add of a container
+    cur, seen, res = 0, {}, []
+    for o in ops:
+        if o[0] == '@':
+            cur = int(o[1:])
+        elif o[0] == 'R':
+            s_ = seen.setdefault(cur, set())
+            if o in s_:
+                continue
+            s_.add(o)
+        elif o == 'L':
+            seen[cur] = set()
+        res.append(o)
+    return res
 
 
 # ------------------------------------------------------------------------------------------------ runners
+MEM_KB = 6000000        # a runaway library call must not take the machine down (seen: 55 GB)
+
 def run_sharded(exe, lines, prefix=None, jobs=None, timeout=900, env=None):
     """like vf.par_lines, but every shard starts with `prefix` (the DEFS line) and a crash is attributed to the line
     being processed (the harness flushes after every line).  Returns (outs, crashes[(line, rc, stderr)])."""
@@ -94,7 +130,9 @@ def run_sharded(exe, lines, prefix=None, jobs=None, timeout=900, env=None):
 
     def work(i):
         inp = ([prefix] if prefix else []) + shards[i]
-        return i, vf.run_lines(exe, inp, timeout=timeout, env=env)
+        if env and 'ASAN_OPTIONS' in env:          # sanitizer builds reserve huge virtual ranges: limit RSS instead
+            return i, vf.run_lines(exe, inp, timeout=timeout, env=env)
+        return i, vf.run_lines('/bin/bash', inp, args=['-c', 'ulimit -v %d; exec "$0"' % MEM_KB, exe], timeout=timeout, env=env)
     with cf.ThreadPoolExecutor(max_workers=jobs) as ex:
         for i, p in ex.map(work, range(len(shards))):
             o = p.stdout.split('\n')
@@ -140,8 +178,8 @@ def place(i, layout, rev=False):
     return tr(p, 0, 10000 * i)
 
 
-def off_line(ml, at, pc, rs, delta, groups):
-    out = ['OFF', float(ml).hex(), float(at).hex(), str(int(pc)), str(int(rs)), float(delta).hex(), str(len(groups))]
+def off_line(ml, at, pc, rs, delta, groups, cb=0):
+    out = (['OFFCB', str(cb)] if cb else ['OFF']) + [float(ml).hex(), float(at).hex(), str(int(pc)), str(int(rs)), float(delta).hex(), str(len(groups))]
     for (jt, et, paths) in groups:
         out += [str(jt), str(et), vf.fmt_paths(paths)]
     return ' '.join(out)
@@ -151,8 +189,12 @@ def parse_off(out):
     t = out.split()
     if t[0] != 'OK':
         return None
-    flags = dict(x.split('=') for x in t[1:4])
-    pos = 4
+    pos = 1
+    flags = {}
+    while '=' in t[pos]:
+        k, v = t[pos].split('=')
+        flags[k] = v
+        pos += 1
     assert t[pos] == 'W'
     W, pos = vf.parse_paths(t, pos + 1)
     assert t[pos] == 'NG'
@@ -194,13 +236,24 @@ def classify_off(case, res):
     """-> list of (key, what).  case = dict(ml, at, pc, rs, delta, groups=[(jt, et, paths)]), res = parse_off(...)."""
     flags, W, groups = res
     found = []
-    if flags['e2'] != '1':
-        found.append(('offset.execute-twice-differs', 'ClipperOffset::Execute called twice on the same object gives different results'))
-    if flags['t'] != '1':
-        found.append(('offset.tree-after-paths-differs', 'Execute(tree) on a used ClipperOffset differs from a fresh object'))
-    if flags['e3'] != '1':
-        found.append(('offset.paths-after-tree-differs', 'Execute(paths) after Execute(tree) differs from the first Execute(paths)'))
     gs = case['groups']
+    cb = case.get('cb', 0)
+    names = dict(e2=('offset.execute-twice-differs', 'ClipperOffset::Execute called twice on the same object gives different results'),
+                 t=('offset.tree-after-paths-differs', 'Execute(tree) on a used ClipperOffset differs from a fresh object'),
+                 e3=('offset.paths-after-tree-differs', 'Execute(paths) after Execute(tree) differs from the first Execute(paths)'),
+                 d2=('offset.execute-after-other-delta-differs', 'Execute(delta) after an Execute with another delta differs from the first Execute(delta)'),
+                 cl=('offset.clear-then-same-paths-differs', 'Clear() followed by the same paths gives another result'))
+    bad = [k for k in names if flags.get(k, '1') != '1']
+    if bad:
+        has_point = any(len(strip_dups(p, et in (0, 1))) == 1 for (jt, et, paths) in gs for p in paths)
+        if cb == 2 and has_point:
+            # root cause: norms is not cleared between calls, the callback of a single-point path is shown what is left
+            found.append(('offset.delta-callback.stale-normals-single-point',
+                          'the DeltaCallback64 of a single-point path is shown the normals left by the previous path -- also across '
+                          'Execute calls (norms is only cleared by Clear()): repeated Execute differs (%s)' % ','.join(bad)))
+        else:
+            for k in bad:
+                found.append(names[k])
     # path level
     for gi, ((G, A), (jt, et, paths)) in enumerate(zip(groups, gs)):
         allA = [p for a in A for p in a]
@@ -209,7 +262,15 @@ def classify_off(case, res):
         rot_only = ms_canon(G) == ms_canon(allA)
         lens = [len(strip_dups(p, et in (0, 1))) for p in paths]
         leak = et == 1 and any(lens[i] == 2 and any(l >= 3 for l in lens[i + 1:]) for i in range(len(lens)))
-        if leak and not rot_only:
+        if cb and not rot_only and not leak and any(l == 1 for l in lens) and jt == 2:
+            found.append(('offset.delta-callback.steps-leak-single-point',
+                          'with a DeltaCallback64 installed DoRound stores steps_per_rad_/step_sin_/step_cos_ per vertex; a single-point '
+                          'path (Round join) after another path of the group is drawn with that path\'s last step count instead of the one it '
+                          'gets alone (group %d, path lengths %s, callback mode %d)' % (gi, lens, cb)))
+        elif cb == 2 and not rot_only and not leak and any(l == 1 for l in lens):
+            found.append(('offset.delta-callback.stale-normals-single-point',
+                          'the DeltaCallback64 of a single-point path is shown the normals of the previous path (group %d, path lengths %s)' % (gi, lens)))
+        elif leak and not rot_only:
             found.append(('offset.endtype-leak.joined-2pt-then-longer',
                           'EndType::Joined group: a two-point path leaves end_type_ = Square/Round and the longer paths after it '
                           'are offset as open paths with caps (group %d, path lengths %s, join %s)' % (gi, lens, JT[jt])))
@@ -315,6 +376,14 @@ def gen_off_cases(ctx, thorough):
         for perm in itertools.permutations([0, 1, 3, 4], 3):
             cases.append(dict(tag='groups-opts', ml=ml, at=at, pc=pc, rs=rs, delta=7.0, layout='diag',
                               groups=[gplace(g, 'diag') for g in perm]))
+    # (2b) delta callback installed (constant; and one that looks at the normals it is shown)
+    for cbm in (1, 2):
+        for (jt, et) in ((2, 0), (3, 0), (2, 4), (0, 2), (2, 1)):
+            pool = [0, 1, 3, 4, 5] if cbm == 1 else [0, 4, 3]
+            for k in (1, 2, 3):
+                for perm in itertools.permutations(pool, k):
+                    cases.append(dict(tag='paths-cb%d' % cbm, ml=2.0, at=0.0, pc=0, rs=0, delta=10.0, layout='diag', cb=cbm,
+                                      groups=[(jt, et, [place(i, 'diag') for i in perm])]))
     # (3) opposite orientations in different Polygon groups (CheckReverseOrientation)
     for delta in (10.0, -10.0):
         for order in ((0, 1), (1, 0)):
@@ -394,7 +463,7 @@ def minimise_history(exe, defs, line):
     head, ops = line.split()[:2], line.split()[2:]
 
     def fails(o):
-        p = vf.run_lines(exe, [defs, ' '.join(head + o)], timeout=60)
+        p = vf.run_lines('/bin/bash', [defs, ' '.join(head + o)], args=['-c', 'ulimit -v %d; exec "$0"' % MEM_KB, exe], timeout=60)
         outs = p.stdout.split('\n')
         return p.returncode != 0 or len(outs) < 2 or not outs[1].startswith('OK')
     changed = True
@@ -402,7 +471,7 @@ def minimise_history(exe, defs, line):
         changed = False
         for i in range(len(ops)):
             o = ops[:i] + ops[i + 1:]
-            if o and fails(o):
+            if o and admissible(o) and fails(o):
                 ops, changed = o, True
                 break
     p = vf.run_lines(exe, [defs, ' '.join(head + ops)], timeout=60)
@@ -486,7 +555,7 @@ def run(ctx):
         ctx.violation('tie-break:cx_history-build', 'the C12 harness no longer compiles against the tree: %s' % str(e)[-800:],
                       replay=dict(kind='build', error=str(e)[-3000:]), nofail=True)
         return
-    asan_env = dict(ASAN_OPTIONS='detect_leaks=1:abort_on_error=0:exitcode=99', UBSAN_OPTIONS='halt_on_error=1:print_stacktrace=1')
+    asan_env = dict(ASAN_OPTIONS='detect_leaks=1:abort_on_error=0:exitcode=99:hard_rss_limit_mb=6000', UBSAN_OPTIONS='halt_on_error=1:print_stacktrace=1')
 
     # ---- 3. corpus first
     cdir = os.path.join(vf.VERIF, 'corpus', PID)
@@ -501,7 +570,7 @@ def run(ctx):
         try:
             orc = vf.oracle_build('objsm')
             trl = ['TR ' + ' '.join(h) for h in itertools.chain.from_iterable(
-                itertools.product(ALPHABET, repeat=n) for n in range(1, 4 if ctx.quick else 5))]
+                itertools.product(ALPHABET, repeat=n) for n in range(1, 4 if ctx.quick else 5)) if admissible(h)]
             r = ctx.rng.fork(1)
             trl += ['TR ' + ' '.join(o for o in random_history(r, 30) if o[0] != '@') for _ in range(400 if ctx.quick else 3000)]
             houts, crashes = run_sharded(exe, trl, prefix=defs)
@@ -527,15 +596,15 @@ def run(ctx):
             ctx.log('oracle not available while the proof is broken: %s' % str(e)[:200])
 
     # ---- 5. exhaustive and random histories vs fresh objects
-    L = 5 if thorough else 4
+    L = 6 if thorough else 5
     hl = ['H 64 ' + ' '.join(h) for h in enum_histories(L)]
     outs64, _ = run_histories(ctx, exe, defs, hl, 'exhaustive Clipper64 histories (length <= %d, %d ops)' % (L, len(ALPHABET)))
     ctx.hist('history_length', 'exhaustive<=%d' % L, len(hl))
-    LD = 4 if thorough else 3
+    LD = 5 if thorough else 4
     hd = ['H D ' + ' '.join(h) for h in enum_histories(LD)]
     run_histories(ctx, exe, defs, hd, 'exhaustive ClipperD histories (length <= %d)' % LD)
     r = ctx.rng.fork(2)
-    nrand = 10000 if thorough else 2500
+    nrand = 60000 if thorough else 10000
     rl = []
     for i in range(nrand):
         h = random_history(r, 30, multi=(i % 3 == 0))
@@ -548,7 +617,8 @@ def run(ctx):
     for a in itertools.product(['R0', 'R1', 'C2', 'X10', 'T21', 'L'], repeat=3):
         for b in itertools.product(['R0', 'R1', 'S0', 'X21', 'L'], repeat=2):
             seq = ['@0', a[0], '@1', b[0], '@0', a[1], '@1', b[1], '@0', a[2], 'X21', '@1', 'X10', '@0', 'T30']
-            alt.append('H 64 ' + ' '.join(seq))
+            if admissible(seq):
+                alt.append('H 64 ' + ' '.join(seq))
     run_histories(ctx, exe, defs, alt, 'two clippers used alternately on shared containers')
     # repeated runs are bit-identical (other process, other sharding)
     sub = hl[::7]
@@ -566,7 +636,7 @@ def run(ctx):
 
     # ---- 6. offset: far-apart paths and groups vs alone
     cases = gen_off_cases(ctx, thorough)
-    lines = [off_line(c['ml'], c['at'], c['pc'], c['rs'], c['delta'], c['groups']) for c in cases]
+    lines = [off_line(c['ml'], c['at'], c['pc'], c['rs'], c['delta'], c['groups'], c.get('cb', 0)) for c in cases]
     t0 = time.time()
     outs, crashes = run_sharded(exe, lines)
     nfail = {}
@@ -585,7 +655,7 @@ def run(ctx):
             if nfail[key] == 1 or cost(c) < nfail.get('_best_' + key, 1 << 60):
                 nfail['_best_' + key] = cost(c)
                 # keep the smallest failing input per key: re-record (Ctx keeps the first per key -> record smallest at the end)
-                nfail['_case_' + key] = (what, dict(kind='OFF', line=line, groups=c['groups'], delta=c['delta'], layout=c['layout'],
+                nfail['_case_' + key] = (what, dict(kind='OFF', line=line, groups=c['groups'], delta=c['delta'], layout=c['layout'], callback_mode=c.get('cb', 0),
                                                     options=dict(miter_limit=c['ml'], arc_tolerance=c['at'], preserve_collinear=c['pc'],
                                                                  reverse_solution=c['rs'])))
     for key in [k for k in nfail if not k.startswith('_')]:
@@ -632,7 +702,9 @@ def run(ctx):
 
 
 def cost(c):
-    return sum(len(p) for g in c['groups'] for p in g[2]) + 10 * len(c['groups'])
+    # prefer few groups/paths, and paths with an area (clearer reproducers) over points
+    return (sum(len(p) + (6 if 0 < len(p) < 3 else 0) for g in c['groups'] for p in g[2]) + 10 * len(c['groups'])
+            + (0 if c['layout'] == 'diag' else 1))
 
 
 def decide_case(ctx, exe, case, origin=''):
@@ -662,7 +734,11 @@ def decide_case(ctx, exe, case, origin=''):
                 ctx.violation('offset.crash', 'offset case failed: %s %s' % (out[:300], origin), replay=case)
             return out
         t = case['line'].split()
-        c = dict(delta=float.fromhex(t[5]), groups=[])
+        cbm = 0
+        if t[0] == 'OFFCB':
+            cbm = int(t[1])
+            t = ['OFF'] + t[2:]
+        c = dict(delta=float.fromhex(t[5]), groups=[], cb=cbm)
         pos, ng = 7, int(t[6])
         for _ in range(ng):
             jt, et = int(t[pos]), int(t[pos + 1])
